@@ -25,6 +25,9 @@ type cliScenario struct {
 	Print    bool   `json:"print"`
 	Log      bool   `json:"log"`
 	Pre      string `json:"pre"` // absent | other | identical | stale-broken | longer
+	// Stdout: "" captured; "full": stdout is /dev/full, every write to it fails (whatever the tool makes of that, a run
+	// that ends in an error leaves the output path alone)
+	Stdout string `json:"stdout,omitempty"`
 }
 
 func (s cliScenario) flags() string {
@@ -41,6 +44,9 @@ func (s cliScenario) flags() string {
 	if s.Log {
 		f = append(f, "-log")
 	}
+	if s.Stdout != "" {
+		f = append(f, "stdout:"+s.Stdout)
+	}
 	return strings.Join(f, " ")
 }
 
@@ -56,6 +62,8 @@ type cliRun struct {
 	Before   hx.Snapshot
 	After    hx.Snapshot
 	PreBytes *string // content at OutAbs before the run (nil = absent)
+	// Elsewhere: a working directory outside the module, removed with the rest
+	Elsewhere string
 }
 
 // insertGen implements the documented default: ".gen" before the extension of the path.
@@ -90,6 +98,12 @@ func execScenario(env *hx.Env, files hx.Files, sc cliScenario, identical string)
 	case "pkg-dir", "gofile-pkg-dir":
 		r.Cwd = pkgDir
 		spelled = filepath.Base(inputAbs)
+	case "abs-outside", "gofile-abs-outside":
+		// started from a directory outside the module, the setup file named by its absolute path
+		r.Cwd = root + "-elsewhere"
+		r.Elsewhere = r.Cwd
+		_ = os.MkdirAll(r.Cwd, 0o755)
+		spelled = inputAbs
 	default:
 		return nil, fmt.Errorf("bad spelling %q", sc.Spelling)
 	}
@@ -173,7 +187,7 @@ func execScenario(env *hx.Env, files hx.Files, sc cliScenario, identical string)
 		r.Args = append(r.Args, "-log")
 	}
 	switch sc.Spelling {
-	case "gofile-only", "gofile-pkg-dir":
+	case "gofile-only", "gofile-pkg-dir", "gofile-abs-outside":
 		r.Env = append(r.Env, "GOFILE="+spelled)
 	case "gofile-and-arg":
 		r.Env = append(r.Env, "GOFILE=does-not-exist-and-must-be-ignored.go")
@@ -182,12 +196,21 @@ func execScenario(env *hx.Env, files hx.Files, sc cliScenario, identical string)
 		r.Args = append(r.Args, spelled)
 	}
 	r.Before = hx.Snap(root)
-	r.Res = hx.Run(env.Bin, hx.RunOpts{Dir: r.Cwd, Args: r.Args, Env: r.Env, Timeout: 90 * time.Second})
+	ro := hx.RunOpts{Dir: r.Cwd, Args: r.Args, Env: r.Env, Timeout: 90 * time.Second}
+	if sc.Stdout == "full" {
+		ro.StdoutTo = "/dev/full"
+	}
+	r.Res = hx.Run(env.Bin, ro)
 	r.After = hx.Snap(root)
 	return r, nil
 }
 
-func (r *cliRun) cleanup() { _ = os.RemoveAll(r.Root) }
+func (r *cliRun) cleanup() {
+	_ = os.RemoveAll(r.Root)
+	if r.Elsewhere != "" {
+		_ = os.RemoveAll(r.Elsewhere)
+	}
+}
 
 // otherLogs lists the *.log files the run created next to the output other than the output itself (used when the
 // documented log path coincides with the output path and the log therefore has no documented name).
@@ -234,6 +257,13 @@ func genSmallProg(t *rapid.T) *pg.Prog {
 	pf.MaxPairs, pf.MaxMethods, pf.MaxFields = 2, 3, 5
 	p := pg.GenProg(t, pf)
 	// carried-over declarations with printf verbs and the % operator (the code is data, never a format string)
+	// now and then a method whose generated code names a package that no file of the package imports (ext.Trail holds
+	// slices of deep/audit.Stamp): the import has to be found from the module alone, wherever the command was started
+	if rapid.IntRange(0, 2).Draw(t, "indirectImport") == 0 && len(p.Ifaces) > 0 {
+		p.Ifaces[0].Methods = append(p.Ifaces[0].Methods, pg.Method{Name: "ConvertTrailIndirectImport", SrcType: "ext.Trail", DstType: "ext.Trail2", SrcPtr: true, DstPtr: true,
+			Opts: pg.Toggles{Typecast: 1}})
+		p.FixImports()
+	}
 	p.SetupFuncs += "// pctLit: 100% of the verbs %d %s %v must survive.\nconst pctLit = \"100% done %d %s %!\"\n\nfunc pctMod(a, b int) int { return a % b }\n"
 	return p
 }
